@@ -61,6 +61,13 @@ CHECKS = {
             'The limits are read from /repo with ast on every run and must equal the constants the theorems are instantiated with. Tied to /repo per run: the real guard objects driven with exhaustive-small and random op sequences vs the model in Coq; '
             'queries on generated cyclic definition graphs (22 edge kinds, import cycles) under a watchdog with the guards wrapped to record the event trace, which the model must accept; scaling families n<=64 checked against the linear bound.',
             'Coq kernel + vm_compute; recursion outside the four guards (deep definition chains, the get_filters cycle) is invisible to the model and is found only by the query stream (two listed known findings).'),
+    'C05': ('Coq proofs: rename = exact splice (+ round trip), alpha-renaming preserves every resolution on the scope-tree language, soundness/non-transitivity of the reference-merging loop + vm_compute correspondence with get_references/rename and execution of old vs renamed programs',
+            'Theorems (9, closed): (text) the renamed file is the old one with exactly the value bytes of the selected leaves replaced, and renaming back restores it byte for byte; (semantics) on the C03 scope-tree language, renaming variable (x, scope) to a fresh name '
+            'leaves the scope of EVERY use and binding unchanged and renames exactly that variable\'s occurrences, for chains of any depth (side condition: no global/nonlocal for x, no class-body read before the class binds it; the latter shown necessary by a capture witness); '
+            '(search) the candidate-merging loop of find_references invents nothing and keeps its start set, but is not transitively closed (witness). Tied to /repo per run on generated executable programs: Script.get_references from every occurrence vs the Coq specification '
+            '(same identifier and same Python variable), same answer from every member (partition), Script.rename output vs the Coq splice model on the real leaves, rename back = original bytes, old and renamed program executed (same trace). '
+            'Deviations are accepted only under three model-computed classifiers (identifier outside the C03 fragment, late-bound use, rebound parameter).',
+            'Coq kernel + vm_compute; single-module programs only (cross-module discovery and file renames are covered by C07\'s streams, not modelled here); the scope-tree printer is harness code.'),
 }
 
 NOT_YET = {
